@@ -25,3 +25,39 @@ Proof.
     destruct sols as [|y ys]; [reflexivity|]. exfalso.
     destruct (dfs_sound vo M hints limit _ WF V1 E y (or_introl eq_refl)) as [a [A _]]. exact (NS a A).
 Qed.
+
+(* ------------------------------------------------------------------ the C06 premises discharged
+   (SV.C06.EncModel.encode_sound / encode_complete, proved for every constraint kind under wf_model);
+   what remains is C01's statement about the SAT answer on this clause list. *)
+From SV Require Import C06.EncModel.
+
+Theorem sat_path_with_c06 (M : cpmodel) (sat_answer : option asg) :
+  wf_model M = true ->
+  (forall b, sat_answer = Some b -> models b (fst (encode M))) ->
+  (sat_answer = None -> forall b, ~ models b (fst (encode M))) ->
+  (forall b, sat_answer = Some b -> answer_valid M (project M (dec_asgn (m_vars M) b)))
+  /\ (sat_answer = None -> no_solution M).
+Proof.
+  intros WF SS SC.
+  assert (ES : forall b, models b (fst (encode M)) -> cp_solution M (dec_asgn (m_vars M) b)).
+  { intros b Hb. exact (proj1 (encode_sound M b WF (model_proved_all M) Hb)). }
+  assert (EC : forall a, cp_solution M a -> exists b, models b (fst (encode M))).
+  { intros a Ha. destruct (encode_complete M a WF (model_proved_all M) Ha) as [b [Hb _]]. exists b. exact Hb. }
+  split.
+  - intros b H. exact (sat_path_sound M sat_answer ES SS b H).
+  - intros H. exact (sat_path_infeasible M sat_answer EC SC H).
+Qed.
+
+Theorem backends_agree_with_c06 (vo : list Z -> list Z) (M : cpmodel) (hints : list (nat * Z)) (limit : Z)
+        (sat_answer : option asg) (sols : list sol) :
+  wf_model M = true -> wf_dfs M = true -> (forall d, incl (vo d) d) -> (forall d, incl d (vo d)) ->
+  (forall b, sat_answer = Some b -> models b (fst (encode M))) ->
+  (sat_answer = None -> forall b, ~ models b (fst (encode M))) ->
+  solve vo M hints limit = RSols sols ->
+  (sols = [] <-> sat_answer = None).
+Proof.
+  intros WF WD V1 V2 SS SC E.
+  apply (backends_agree vo M hints limit sat_answer sols WD V1 V2); try assumption.
+  - intros b Hb. exact (proj1 (encode_sound M b WF (model_proved_all M) Hb)).
+  - intros a Ha. destruct (encode_complete M a WF (model_proved_all M) Ha) as [b [Hb _]]. exists b. exact Hb.
+Qed.
